@@ -27,7 +27,7 @@ Lemma json_wf_arr l : json_wf (JArr l) = forallb json_wf l.
 Proof. cbn [json_wf]. apply fix_all_forallb. Qed.
 
 Lemma json_wf_obj m :
-  json_wf (JObj m) = str_nodup (map fst m) && forallb (fun kx => json_wf (snd kx)) m.
+  json_wf (JObj m) = j_str_nodup (map fst m) && forallb (fun kx => json_wf (snd kx)) m.
 Proof. cbn [json_wf]. f_equal. apply (fix_all_forallb2 (fun _ x => json_wf x)). Qed.
 
 Lemma edge_arr l : json_mentions_edge_int (JArr l) = existsb json_mentions_edge_int l.
@@ -56,7 +56,7 @@ Proof.
 Qed.
 
 Definition conforms_obj_body (s : schema) (fs : list (comp inputvaldef)) (kvs : list (str * json)) : bool :=
-  str_nodup (map fst kvs) &&
+  j_str_nodup (map fst kvs) &&
   forallb (fun kx => match cv_find_field (fst kx) (sp_input_fields fs) with
                      | Some f => conforms_input s (snd kx) (iv_ty f)
                      | None => false
@@ -324,7 +324,7 @@ Lemma input_fields_nodup n d n' dirs fs b :
   sch_get_type s n = Some (EInput d n' dirs fs b) -> NoDup (map iv_name (sp_input_fields fs)).
 Proof.
   intros H. apply sch_find_type_in in H. unfold cv_schema_wf in Hwf.
-  rewrite forallb_forall in Hwf. specialize (Hwf _ H). cbn in Hwf. now apply str_nodup_spec.
+  rewrite forallb_forall in Hwf. specialize (Hwf _ H). cbn in Hwf. now apply j_str_nodup_spec.
 Qed.
 
 End WithSchema.
@@ -367,8 +367,8 @@ Qed.
 Lemma cv_scalar_ok_sp n v : cv_scalar_ok n v = true -> sp_scalar_okb n v = true.
 Proof.
   unfold cv_scalar_ok, sp_scalar_okb. name_cases n; try tauto.
-  - unfold json_as_i64. destruct v; try discriminate. destruct (z <? two63)%Z; [|discriminate].
-    unfold fits_i32. tauto.
+  - unfold json_as_i64. destruct v; try discriminate. destruct (z <? j_two63)%Z; [|discriminate].
+    unfold j_fits_i32. tauto.
   - destruct v; cbn [json_is_f64 orb]; try discriminate; [|reflexivity].
     unfold json_int_as_f64_abs_lt_max_safe. lia.
   - unfold json_is_i64, json_as_i64. destruct v; cbn [json_is_string orb]; try discriminate; reflexivity.
@@ -381,15 +381,15 @@ Proof.
   destruct rn_distinct as (D1 & D2 & D3 & D4 & D5 & D6 & D7 & D8 & D9 & D10).
   intros He Hw. unfold SpecScalar, cv_scalar_ok.
   intros [[-> [z [-> Hz]]]|[[-> H]|[[-> [x ->]]|[[-> [b ->]]|[[-> H]|H]]]]].
-  - rewrite streq_refl. cbn [json_as_i64]. cbn in He, Hw. unfold cv_edge_int in He. unfold fits_i32.
-    assert (z <? two63 = true)%Z by (unfold two31, two63 in *; lia). rewrite H. unfold two31 in *. lia.
+  - rewrite streq_refl. cbn [json_as_i64]. cbn in He, Hw. unfold cv_edge_int in He. unfold j_fits_i32.
+    assert (z <? j_two63 = true)%Z by (unfold j_two31, j_two63 in *; lia). rewrite H. unfold j_two31 in *. lia.
   - rewrite D1, streq_refl. destruct H as [[t ->]|[z [-> Hz]]]; [reflexivity|].
     cbn [json_is_f64 orb]. cbn in He. unfold cv_edge_int in He. unfold json_int_as_f64_abs_lt_max_safe. lia.
   - rewrite D2, D3, streq_refl. reflexivity.
   - rewrite D4, D5, D6, streq_refl. reflexivity.
   - rewrite D7, D8, D9, D10, streq_refl. destruct H as [[x ->]|[z ->]]; [reflexivity|].
     cbn [json_is_string orb]. unfold json_is_i64, json_as_i64. cbn in He. unfold cv_edge_int in He.
-    assert (z <? two63 = true)%Z by lia. now rewrite H.
+    assert (z <? j_two63 = true)%Z by lia. now rewrite H.
   - unfold sp_builtin_scalar in H. name_cases n; try reflexivity; exfalso; apply H;
       repeat match goal with E : streq _ _ = true |- _ => apply streq_eq in E end; tauto.
 Qed.
@@ -422,7 +422,7 @@ Proof.
 Qed.
 
 Lemma json_wf_obj_nodup m : json_wf (JObj m) = true -> NoDup (jmap_keys m).
-Proof. rewrite json_wf_obj, andb_true_iff. intros [H _]. now apply str_nodup_spec. Qed.
+Proof. rewrite json_wf_obj, andb_true_iff. intros [H _]. now apply j_str_nodup_spec. Qed.
 
 Lemma json_size_obj_in m k x : In (k, x) m -> (json_size x < json_size (JObj m))%nat.
 Proof.
@@ -479,7 +479,7 @@ Proof.
       - destruct v; try discriminate. eapply SVEnum; eauto. now apply existsb_streq.
       - destruct v as [| | | | | |kvs]; try discriminate. unfold conforms_obj_body in Hc.
         apply andb_true_iff in Hc. destruct Hc as [Hc HR]. apply andb_true_iff in Hc. destruct Hc as [HN HA].
-        rewrite forallb_forall in HA, HR. apply str_nodup_spec in HN.
+        rewrite forallb_forall in HA, HR. apply j_str_nodup_spec in HN.
         pose proof (input_fields_nodup s Hwf _ _ _ _ _ _ Eg) as Hfn.
         assert (Hkeys : forall k, In k (jmap_keys kvs) -> exists f, In f (sp_input_fields fs) /\ iv_name f = k).
         { intros k Hk. unfold jmap_keys in Hk. apply in_map_iff in Hk. destruct Hk as [[k' x] [<- Hin]].
@@ -615,7 +615,7 @@ Proof.
         destruct Hfield as [j [H1 [H2 [H3 _]]]]. now exists j, j.
       * intros f Hf Hget Hdv. specialize (Hfield f Hf). now rewrite Hget, Hdv in Hfield.
     + apply Hc; [reflexivity|]. unfold conforms_obj_body. rewrite !andb_true_iff. repeat split.
-      * now apply str_nodup_spec.
+      * now apply j_str_nodup_spec.
       * apply forallb_forall. intros [k x] Hin. cbn [fst snd].
         assert (Hk : In k (jmap_keys o)) by (change k with (fst (k, x)); now apply in_map).
         destruct (Hreskeys k Hk) as [f [Hf <-]].
@@ -660,7 +660,7 @@ Qed.
 
 Lemma schema_field_ty_size n d n' dirs fs b f :
   sch_get_type s n = Some (EInput d n' dirs fs b) -> In f (sp_input_fields fs) ->
-  (ty_size (iv_ty f) <= cv_schema_max_ty_size s)%nat.
+  (cv_ty_size (iv_ty f) <= cv_schema_max_ty_size s)%nat.
 Proof using.
   clear Hwf Hd. intros H Hf. apply sch_find_type_in in H. unfold cv_schema_max_ty_size.
   induction (sch_types s) as [|t ts IH]; [destruct H|]. cbn [fold_right].
@@ -703,7 +703,7 @@ Variable Mx : nat.
 Hypothesis HMx : (cv_schema_max_ty_size s <= Mx)%nat.
 
 Definition cv_enough (fuel : nat) (t : ty) (v : json) : Prop :=
-  (ty_size t <= Mx /\ json_size v * S (S Mx) + ty_size t < fuel)%nat.
+  (cv_ty_size t <= Mx /\ json_size v * S (S Mx) + cv_ty_size t < fuel)%nat.
 
 Lemma cv_bind_no_oof {A B} (x : cv_res A) (f : A -> cv_res B) :
   x <> CvOutOfFuel -> (forall a, f a <> CvOutOfFuel) -> cv_bind x f <> CvOutOfFuel.
@@ -714,7 +714,7 @@ Lemma cv_value_no_oof : forall fuel t v, json_wf v = true -> cv_enough fuel t v 
 Proof using Hwf HMx.
   clear Hd. induction fuel as [|fuel IH]; intros t v Hw [Ht Hf]; [lia|].
   cbn [cv_value]. destruct (json_is_null v) eqn:Enull; [destruct (is_non_null t); discriminate|].
-  assert (Hlist : forall inner, S (ty_size inner) = ty_size t -> cv_list (cv_value fuel s inner) v <> CvOutOfFuel).
+  assert (Hlist : forall inner, S (cv_ty_size inner) = cv_ty_size t -> cv_list (cv_value fuel s inner) v <> CvOutOfFuel).
   { intros inner Hi. unfold cv_list. apply cv_bind_no_oof; [|discriminate]. apply cv_map_m_no_oof.
     intros x Hx. destruct v as [| | | | |l|m];
       try (destruct Hx as [<-|[]]; apply IH; [assumption|unfold cv_enough; lia]).
@@ -756,7 +756,7 @@ Proof.
     inversion Hs; subst; try congruence; try discriminate.
     match goal with H : is_non_null t = false |- _ => rewrite H end. now exists JNull.
   - pose proof (json_is_null_false _ Enull) as Hnn.
-    assert (Hitem : forall inner x r0, S (ty_size inner) = ty_size t ->
+    assert (Hitem : forall inner x r0, S (cv_ty_size inner) = cv_ty_size t ->
               (x = v \/ exists l, v = JArr l /\ In x l) -> SpecVal s inner x r0 ->
               exists r', cv_value fuel s inner x = CvOk r').
     { intros inner x r0 Hi Hx Hsx. destruct Hx as [->|[l [-> Hx]]].
@@ -767,7 +767,7 @@ Proof.
           assert (existsb json_mentions_edge_int l = true) by (apply existsb_exists; now exists x). congruence.
         + pose proof (json_size_arr_in _ _ Hx). unfold cv_enough.
           assert (json_size x * S (S Mx) + S (S Mx) <= json_size (JArr l) * S (S Mx))%nat by nia. lia. }
-    assert (Hlist : forall inner, S (ty_size inner) = ty_size t -> sp_list_inner t = Some inner ->
+    assert (Hlist : forall inner, S (cv_ty_size inner) = cv_ty_size t -> sp_list_inner t = Some inner ->
               exists r', cv_list (cv_value fuel s inner) v = CvOk r').
     { intros inner Hi Hti. unfold cv_list.
       assert (Hm : exists l', cv_map_m (cv_value fuel s inner) (match v with JArr l => l | _ => [v] end) = CvOk l').
@@ -888,7 +888,7 @@ Proof.
 Qed.
 
 Lemma vars_names_nodup : NoDup (map v_name vars).
-Proof using Hvars. now apply str_nodup_spec. Qed.
+Proof using Hvars. now apply j_str_nodup_spec. Qed.
 
 (* everything one needs to know about a successful run, per variable *)
 Lemma cv_vars_ok_facts r : coerce_variable_values s vars values = CvOk r ->
@@ -945,7 +945,7 @@ Proof.
   - rewrite H0, H2 in H3. tauto.
 Qed.
 
-Lemma var_ty_size vd : In vd vars -> (ty_size (v_ty vd) <= cv_max_ty_size vars)%nat.
+Lemma var_ty_size vd : In vd vars -> (cv_ty_size (v_ty vd) <= cv_max_ty_size vars)%nat.
 Proof using.
   clear. induction vars as [|x l IH]; [intros []|]. cbn [cv_max_ty_size]. intros [->|H]; [lia|].
   specialize (IH H). lia.
